@@ -78,6 +78,7 @@ static uint32_t fm_sc_ours;
 static uint32_t *fm_sc_res;
 static double fm_mn_ours, *fm_mn_res;
 /* statistics */
+static unsigned long fm_dup_ids;
 static unsigned long fm_n_ev, fm_n_anti, fm_n_anti_first, fm_n_resp, fm_n_recv_ev, fm_n_recv_anti, fm_n_rounds, fm_n_forced,
     fm_n_dup_content;
 
@@ -244,6 +245,13 @@ static void fm_peer_receive(const void *buf, int size)
 		return;
 	}
 	fm_n_recv_ev++;
+	/* S oracle (C06 id uniqueness): two events of this rank that are both alive must not carry the same (id word, m_seq) -
+	 * the peer, like a real receiver, can only tell them apart by that pair when an anti-message arrives */
+	for(unsigned i = 0; i < fm_recv_n; ++i)
+		if(!fm_recv[i].cancelled && fm_recv[i].raw_id == (m->raw_flags & ~3U) && fm_recv[i].m_seq == m->m_seq && fm_recv[i].tq >= fm_last_gvt) {
+			fm_dup_ids++;
+			break;
+		}
 	if(fm_recv_n < FM_SENT) {
 		fm_recv[fm_recv_n].raw_id = m->raw_flags & ~3U;
 		fm_recv[fm_recv_n].m_seq = m->m_seq;
